@@ -251,6 +251,20 @@ def emit_cpp(prog, opts=None):
                            % (mt, machine_obj(prog, m_), mt, tn, mt, tn, 1 << st.idx))
         out.append('#endif')
         out.append('  return m;\n}')
+        # active-state visitor (backmp11: visit<visit_mode::active_recursive>): bit mask of the states the visitor is called with
+        out.append('#if VF_IS_MP11')
+        out.append('}   // extern "C"')
+        out.append('template <class T> static inline int vf_bit(T const&) { return 0; }')
+        for m_ in prog.machines:
+            for st in m_.states.values():
+                if st.kind == 'exit': continue
+                tn = st.name if st.kind == 'sub' else '%s_::%s' % (m_.name, st.name)
+                out.append('static inline int vf_bit(%s const&) { return %d; }' % (tn, 1 << st.idx))
+        out.append('extern "C" {')
+        out.append('__attribute__((noinline)) int vf_visit(void) { int m = 0; g_sm.visit<boost::msm::backmp11::visit_mode::active_recursive>([&m](auto& s) { m |= vf_bit(s); }); return m; }')
+        out.append('#else')
+        out.append('__attribute__((noinline)) int vf_visit(void) { return -1; }')
+        out.append('#endif')
     if prog.flags:
         out.append('__attribute__((noinline)) int vf_flags(void) {\n  int m = 0;')
         for k, f in enumerate(prog.flags):
@@ -375,7 +389,12 @@ def introspect_checks(prog, conf, tag):
         for st in m.states.values(): allm |= 1 << st.idx
     for m in conf.active_machines():
         for name in conf.m[m.name]['active']: act |= 1 << m.states[name].idx
-    return ['VF_CHECK(VFN(vf_introspect)() == (VFN(vf_is_mp11)() ? %d : %d), "%s:introspection (is_state_active / get_state_by_id)");' % (act, allm, tag)]
+    vis = act
+    for m in prog.machines:
+        for st in m.states.values():
+            if st.kind == 'exit': vis &= ~(1 << st.idx)
+    return ['VF_CHECK(VFN(vf_introspect)() == (VFN(vf_is_mp11)() ? %d : %d), "%s:introspection (is_state_active / get_state_by_id)");' % (act, allm, tag),
+            'VF_CHECK(!VFN(vf_is_mp11)() || VFN(vf_visit)() == %d, "%s:active-state visitor (visit<active_recursive>)");' % (vis, tag)]
 
 
 def numbering_checks(prog, tag):
